@@ -95,6 +95,17 @@ def fresh_executor(horizon=200):
     return ex
 
 
+def check_setup_state(ex, part) -> None:
+    """After SETUP exactly the four registers it sets are defined (the reference state of every exploration is read from the
+    executor, so a register file that makes never-written registers look defined would otherwise poison the reference too)."""
+    snap = snapshot(ex)
+    want = {"R0": 0, "R1": 1, "C0": 2, "Q0": 0}
+    if snap["regs"] != want or snap["shared_regs"]:
+        add_violation(part, "undefined-register-has-a-value", f"after a subroutine that sets R0, R1, C0, Q0 the application's registers "
+                      f"read {snap['regs']} (shared: {snap['shared_regs']}); registers nothing has written must be undefined",
+                      {"kind": "program", "setup": SETUP, "program": []})
+
+
 def run_real(ex, prog, trace: Optional[list] = None):
     """Executes one subroutine; returns ('done',) | ('fault', line|None, message) | ('blocked',) | ('horizon',)."""
     from netqasm.lang.subroutine import Subroutine
@@ -356,6 +367,9 @@ def regfile_shard(shard):
     handful of low-numbered registers, so the top of the register file and aliasing between registers are covered here."""
     _, bank, idx = shard
     part = new_part()
+    ex0 = fresh_executor()
+    run_real(ex0, SETUP)
+    check_setup_state(ex0, part)
     a = ("r", bank, idx)
     for b in [("r", bk, i) for bk in "RCQM" for i in range(16)]:
         progs = [
